@@ -14,6 +14,12 @@ Init == /\ done = FALSE
              /\ (ca => t = "cms") /\ (sh = "der" => nd /\ z = CHOOSE x \in Sizes : TRUE)
              /\ cfg = [tool |-> t, flags |-> Opt(nsc, "-nosmimecap") \o Opt(nd, "-nodetach") \o Opt(nc, "-nocerts") \o Opt(ca, "-cades"),
                        key |-> k[1], issuer |-> k[2], serial |-> k[3], size |-> z, shape |-> sh]
+(* the shape of the RSA signature value itself: whatever comes out, or one that begins with a zero octet (one in 256 does), made with a key whose *)
+(* modulus has an odd number of octets (2040 bits) or an even one; and a signer certificate with serial number 0                                *)
+SigInit == /\ done = FALSE
+           /\ \E t \in {"smime", "cms"}, nd \in BOOLEAN, k \in {<<"k2040", "i1", "s1", "any">>, <<"k2040", "i1", "s1", "leadzero">>, <<"k1", "i2", "zero", "any">>, <<"k1", "i2", "s2", "leadzero">>} :
+                cfg = [tool |-> t, flags |-> Opt(TRUE, "-nosmimecap") \o Opt(nd, "-nodetach"), key |-> k[1], issuer |-> k[2], serial |-> k[3],
+                       size |-> 300, shape |-> "bytes", sigshape |-> k[4]]
 Next == ~done /\ done' = TRUE /\ UNCHANGED cfg
 Emit == done => PrintT(ToJson(cfg))
 =============================================================================
